@@ -83,6 +83,26 @@ CLAIMED = {
           'blocking wait against deficit/rate. Writer level: real writeCachedDataPoints() with module-level buckets rebuilt by '
           'carbon\'s own code, incl. shutdownModifyUpdateSpeed(); same oracle on create()/write() call times.',
           'Virtual clock; float tolerance 1e-6 plus clock resolution.', 'DESIGN.md 3/C20'),
+  'C02': ('exploration', 'history + per-key sequential accounting over unique values, executed under a controlled thread scheduler',
+          'Receiver and writer run as real threads over the real _MetricCache and CacheManagementHandler; a baton scheduler with '
+          'a scheduling point at every source line of cache.py/events.py executes baseline, mirrored, every 1-preemption, '
+          '2-preemption (strided), seeded random and PCT schedules of generated store/query/drain histories for all six '
+          'strategies. Oracle: exactly-once and last-write-wins per (metric, timestamp) from call/return events, sorted batches, '
+          'query consistency, size == sum(len) at every lock-free scheduling point.',
+          'Line-granularity preemption of two threads; bounded preemptions then random; virtual clock.', 'DESIGN.md 3/C02'),
+  'C10': ('exploration', 'invariant at every scheduling point + refusal snapshots under a controlled thread scheduler',
+          'MAX_CACHE_SIZE 1..6,20,40 x flow control x strategies booted through carbon\'s own option parsing; histories that burst '
+          'against the limit run under 1-preemption-exhaustive and random schedules; size <= ceil(hard max) is asserted at every '
+          'scheduling point, every undisturbed store is snapshotted before/after (refusal changes nothing, cached-timestamp update '
+          'accepted, new datapoint refused iff at the limit), overflow signals are matched with the cache.overflow counter and '
+          'the C02 accounting.',
+          'Fractional limits read as ceil(limit).', 'DESIGN.md 3/C10'),
+  'C17': ('exploration', 'drain-sequence oracle (pass partition, maximum, lag, emptiness) under a controlled thread scheduler',
+          'Six strategies x lag 0/30 x bounded/unbounded cache; store/drain histories run under 1-preemption-exhaustive, '
+          '2-preemption (short histories) and random schedules with snapshots taken when the drain takes the cache lock; '
+          'violations: any exception from store/drain_metric, (metric, []) while others hold data, datapoints left after input '
+          'stops, no valid pass partition (starvation), drained metric not the maximum, lag not respected.',
+          'Lag clause checked for timesorted only (documented); any valid pass partition accepted.', 'DESIGN.md 3/C17'),
 }
 
 NOT_YET = 'check not built yet (work in progress; see DESIGN.md)'
